@@ -14,7 +14,7 @@ DepthBound  == TLCGet("level") <= MaxDepth
 ASSUME PrintT("META " \o ToJson([DefaultLife |-> DefaultLife, PermTO |-> PermTO, ChanTO |-> ChanTO,
                                  MaxLife |-> MaxLife, Strict |-> Strict, Denied |-> Denied, Fam |-> Fam,
                                  ListenFam |-> ListenFam, Clients |-> Clients, Users |-> Users,
-                                 PeerPorts |-> PeerPorts, InboundMTU |-> InboundMTU,
+                                 PeerPorts |-> PeerPorts, QuotaDenied |-> QuotaDenied, InboundMTU |-> InboundMTU,
                                  Extra |-> [auth |-> IF HasAuth THEN "yes" ELSE "no"]]))
 EmitEdge ==
   PrintT("EDGE " \o ToJson([s |-> <<alloc, perm, chan, resv>>, a |-> last', o |-> out',
